@@ -322,6 +322,33 @@ Proof.
   apply app_inv_tail in E. exact E.
 Qed.
 
+(* a link written for one step is never picked up by the glob of another step *)
+Lemma app_eq_same_tail_length (a a' b b' : str) :
+  a ++ b = a' ++ b' -> length b = length b' -> a = a' /\ b = b'.
+Proof.
+  revert a'; induction a as [|x a IH]; intros [|y a'] E L.
+  - split; [reflexivity | exact E].
+  - exfalso. cbn in E. rewrite E in L. cbn in L. rewrite app_length in L. lia.
+  - exfalso. cbn in E. rewrite <- E in L. cbn in L. rewrite app_length in L. lia.
+  - cbn in E. injection E as -> E. destruct (IH a' E L) as [-> ->]. split; reflexivity.
+Qed.
+
+Theorem no_cross_step_capture s1 s2 kid :
+  plain_name s1 = true -> is_ascii s2 = true -> is_hex kid = true -> (8 <= length kid)%nat ->
+  file_matches_glob s1 (link_name s2 kid) = true -> s1 = s2.
+Proof.
+  intros Hp Ha Hh Hl G.
+  assert (Hf : is_ascii (link_name s2 kid) = true).
+  { rewrite (link_name_hex _ _ Hh), !is_ascii_app, Ha, (is_hex_ascii _ (is_hex_firstn 8 kid Hh)). reflexivity. }
+  destruct (glob_sound s1 _ Hp Hf G) as [mid [E [Lm _]]].
+  rewrite (link_name_hex _ _ Hh) in E.
+  replace (s2 ++ [c_dot] ++ firstn 8 kid ++ dot_link) with (s2 ++ ([c_dot] ++ firstn 8 kid ++ dot_link)) in E by reflexivity.
+  replace (s1 ++ [c_dot] ++ mid ++ dot_link) with (s1 ++ ([c_dot] ++ mid ++ dot_link)) in E by reflexivity.
+  apply app_eq_same_tail_length in E.
+  - destruct E as [E _]. symmetry. exact E.
+  - cbn [app length]. rewrite !app_length, Lm, (firstn8_length kid Hl). reflexivity.
+Qed.
+
 (* the unsigned / inspection link name  <name>.link  is never picked up by the
    loader as a link of step <name> *)
 Lemma simple_glob_length_ascii pat name :
@@ -543,3 +570,60 @@ Proof.
     try discriminate; try reflexivity; try (destruct H as [H|[H|H]]; congruence);
     try (left; discriminate); try (right; left; discriminate); try (right; right; discriminate).
 Qed.
+
+(* ------------------------------------------------------------------ *)
+(* instantiation with what cmd/verify.go says now (gen/Cli.v) *)
+
+Lemma gen_all_returned :
+  check_verify_propagates_error = true -> all_returned (gen_ret (bs "verify")).
+Proof.
+  unfold check_verify_propagates_error, all_returned. intro H.
+  repeat (apply andb_true_iff in H; destruct H as [H ?]). repeat split; assumption.
+Qed.
+
+Lemma verify_exit_iff_library_src :
+  check_verify_propagates_error = true ->
+  forall (Meta KeyT Summary : Type) (load_metadata : str -> res Meta) (load_key : str -> res KeyT)
+         (key_id : KeyT -> str) (read_file : str -> res str)
+         (in_toto_verify : Meta -> amap KeyT -> str -> str -> amap str -> list str -> bool -> res Summary)
+         (meta0 : Meta) (key0 : KeyT) (summary0 : Summary) (f : verify_flags),
+    cli_exit (cmd_verify Meta KeyT Summary load_metadata load_key key_id read_file in_toto_verify
+                (gen_ret (bs "verify")) meta0 key0 summary0 f) = 0%Z <->
+    exists mb ks pems,
+      load_metadata (vf_layout f) = Ok mb /\
+      Forall2 (fun p k => load_key p = Ok k) (vf_keys f) ks /\
+      Forall2 (fun p b => read_file p = Ok b) (vf_inter f) pems /\
+      is_ok (lib_verify Meta KeyT Summary in_toto_verify f mb (key_map KeyT key_id ks []) pems) = true.
+Proof.
+  intros H Meta KeyT Summary lm lk kid rf itv m0 k0 s0 f.
+  apply verify_exit_iff_library. exact (gen_all_returned H).
+Qed.
+
+Lemma verify_exit_is_library_verdict_src :
+  check_verify_propagates_error = true ->
+  forall (Meta KeyT Summary : Type) (load_metadata : str -> res Meta) (load_key : str -> res KeyT)
+         (key_id : KeyT -> str) (read_file : str -> res str)
+         (in_toto_verify : Meta -> amap KeyT -> str -> str -> amap str -> list str -> bool -> res Summary)
+         (meta0 : Meta) (key0 : KeyT) (summary0 : Summary) (f : verify_flags) mb ks pems,
+    load_metadata (vf_layout f) = Ok mb ->
+    Forall2 (fun p k => load_key p = Ok k) (vf_keys f) ks ->
+    Forall2 (fun p b => read_file p = Ok b) (vf_inter f) pems ->
+    cli_exit (cmd_verify Meta KeyT Summary load_metadata load_key key_id read_file in_toto_verify
+                (gen_ret (bs "verify")) meta0 key0 summary0 f)
+    = cli_exit (lib_verify Meta KeyT Summary in_toto_verify f mb (key_map KeyT key_id ks []) pems).
+Proof.
+  intros H Meta KeyT Summary lm lk kid rf itv m0 k0 s0 f mb ks pems.
+  apply verify_exit_is_library_verdict. exact (gen_all_returned H).
+Qed.
+
+(* a toy world for the non-vacuity examples: layouts are numbers, the library
+   accepts layout 1 with exactly the key "K" *)
+Definition toy_load_metadata (p : str) : res N :=
+  if str_eqb p (bs "good.layout") then Ok 1 else if str_eqb p (bs "bad.layout") then Ok 2 else Err 1.
+Definition toy_load_key (p : str) : res str := if str_eqb p (bs "k.pub") then Ok (bs "K") else Err 2.
+Definition toy_read_file (p : str) : res str := if str_eqb p (bs "i.pem") then Ok (bs "PEM") else Err 3.
+Definition toy_verify (mb : N) (keys : amap str) (linkdir step : str) (params : amap str)
+           (pems : list str) (norm : bool) : res unit :=
+  if (mb =? 1) && ahas keys (bs "K") && str_eqb linkdir (bs "links") then Ok tt else Err 4.
+Definition toy_cmd (ret : str -> bool) (f : verify_flags) : res unit :=
+  cmd_verify N str unit toy_load_metadata toy_load_key (fun k => k) toy_read_file toy_verify ret 0 [] tt f.
